@@ -59,7 +59,7 @@ class Cell:
             project = world.parse(self.text)
             info = world.prepare(project)
         if len(a) > len(self.names):
-            project.attributes["scheduleGranularity"] = a[len(self.names)]
+            world.set_symbolic_granularity(project, a[len(self.names)], self.spec.resolution)
         inject(self.spec, project, vals, self.markers, [0])
         warns = world.run_scenario(project, 0)
         obs = world.observe(project, 0, info)
@@ -167,16 +167,15 @@ class RelCell(Cell):
             project = world.parse(self.texts[k])
             info = world.prepare(project, scenario=sc_list[0])
         if G is not None:
-            project.attributes["scheduleGranularity"] = G
+            world.set_symbolic_granularity(project, G, spec.resolution)
         inject(spec, project, vals, self.markers)
         all_obs = []
         for n, sc in enumerate(sc_list):
             if n > 0:
                 with world.notrace():
-                    project.attributes["scheduleGranularity"] = spec.resolution  # concrete while untraced
+                    project.attributes._g_sym = None  # concrete while untraced
                     world.prepare_next_scenario(project, sc, info)
-                if G is not None:
-                    project.attributes["scheduleGranularity"] = G
+                project.attributes._g_sym = G
             warns = world.run_scenario(project, sc)
             obs = world.observe(project, sc, info)
             obs["warnings"] = warns
